@@ -370,11 +370,21 @@ func evalC12(c *engine.Case) engine.Verdict {
 		if err != nil {
 			panic(err)
 		}
-		// drop the options that are defaults (they stay in the ledger)
-		args = args[nd:]
-		return w, f, args
+		// drop the options that are defaults (they stay in the ledger); the
+		// shared slice gets spare capacity on purpose
+		shared := make([]argmapper.Arg, 0, len(args)+8)
+		shared = append(shared, args[nd:]...)
+		return w, f, shared
 	}
 	typ := sc.Target.In[0].Type
+	// number of supplied values among the call-time options (they come first)
+	nWithheld := len(sc.Inputs) - x.Defaults
+	if x.Defaults > len(sc.Inputs) {
+		nWithheld = 0
+	}
+	if sc.JoinTyped {
+		nWithheld = 0
+	}
 	doOp := func(w *engine.World, f *argmapper.Func, args []argmapper.Arg, op string, tag int) string {
 		switch op {
 		case "call":
@@ -385,7 +395,17 @@ func evalC12(c *engine.Case) engine.Verdict {
 			var rf *argmapper.Func
 			var rerr error
 			var o engine.Outcome
-			engine.Protect(&o, func() { rf, rerr = f.Redefine(args...) })
+			// Redefine with the first call-time input withheld (so that the
+			// redefined function has an input of its own) and hand that value
+			// to the redefined function instead. The option slice passed to
+			// Redefine is the shared one (spare capacity, passed as is): a
+			// redefined function that appended its per-call values to it would
+			// write into memory other goroutines read.
+			rargs, extra := args, []argmapper.Arg(nil)
+			if nWithheld > 0 {
+				rargs, extra = args[1:], args[:1]
+			}
+			engine.Protect(&o, func() { rf, rerr = f.Redefine(rargs...) })
 			if o.Panic != "" {
 				return "redefine-panic"
 			}
@@ -400,7 +420,14 @@ func evalC12(c *engine.Case) engine.Verdict {
 			// arguments) is not a function of the call alone: every variant
 			// is an outcome a sequential execution can return. Only the
 			// success of Redefine and the absence of a panic are compared.
-			if o2 := w.Call(rf, []argmapper.Arg{engine.Quiet()}); o2.Panic != "" {
+			if len(extra) > 0 {
+				nd := x.Defaults
+				if nd > len(sc.Inputs) {
+					nd = len(sc.Inputs)
+				}
+				w.AddAltLabels(sc.Inputs[nd].Tok, rf)
+			}
+			if o2 := w.Call(rf, append(append([]argmapper.Arg(nil), extra...), engine.Quiet())); o2.Panic != "" {
 				return "panic"
 			}
 			return "redefined"
